@@ -47,6 +47,8 @@ DEFECTS = {
     "providers": ("Transparent", "graph-traversal provider and bitmap provider implement different meanings"),
     "delpacked": ("RefsTransparent", "deleting a ref leaves its packed-refs entry behind"),
     "shallow": ("Transparent", "the commit-graph is asked for parents before the shallow boundary is tested"),
+    "bmpshallow": ("Transparent", "the bitmap provider ignores a shallow boundary"),
+    "octopus": ("Transparent", "the commit-graph writer loses parents of the second and later three-parent merges"),
 }
 
 _G = {}
@@ -96,7 +98,7 @@ def _node_task(nid):
         tree_edge = parent.get(dst) == (nid, lab)
         try:
             res = RP.step(root, scratch, models[nid], lab, models[dst], src_ans, seed=G["seed"],
-                          want_n=tree_edge, n_cache=ncache)
+                          want_n=tree_edge, n_cache=ncache, force=G.get("force"))
         except Exception as e:
             import traceback
             res = {"lab": lab, "who": "?", "opts": 0, "shape": [f"harness exception {type(e).__name__}: {e}"],
@@ -154,7 +156,7 @@ def report(ctx, res, path, model, extra=None):
         ctx.drift_event(f"after {path}: {s}" + (("\n" + res["tb"]) if res.get("tb") else ""))
 
 
-def replay_graph(ctx, cfgname, budget, label, every_edge=False):
+def replay_graph(ctx, cfgname, budget, label, every_edge=False, force=None):
     d = ctx.tmpdir("g")
     gen = os.path.join(d, "gen.cfg")
     with open(os.path.join(tlc.SPECS, cfgname)) as f:
@@ -186,7 +188,7 @@ def replay_graph(ctx, cfgname, budget, label, every_edge=False):
     snapdir = os.path.join(ctx.scratch, "snap")
     os.makedirs(snapdir, exist_ok=True)
     _G.update(g=g, models=models, snapdir=snapdir, sel=sel, parent=parent, has_out=has_out,
-              scratch=ctx.scratch, seed=ctx.seed)
+              scratch=ctx.scratch, seed=ctx.seed, force=force)
     by_level = {}
     for n in order:
         if has_out[n]:
@@ -208,7 +210,7 @@ def replay_graph(ctx, cfgname, budget, label, every_edge=False):
                     path = labs + [res["lab"].replace('\\"', '"')]
                     if res["viol"] or res["shape"] or res.get("info"):
                         report(ctx, res, path, models[res["dst"]],
-                               {"models": [models[x] for x in nodes] + [models[res["dst"]]]})
+                               {"models": [models[x] for x in nodes] + [models[res["dst"]]], "force": force})
                     a = res["lab"].split("(")[0]
                     acts[a] = acts.get(a, 0) + 1
                     if not res["shape"]:
@@ -270,7 +272,7 @@ def defect_replays(ctx, futs):
         # equivalent ways of writing each file.  The defect model describes a design the code should NOT
         # have, so a real directory that differs from it is not drift.
         for whos in ("w", "x"):
-            for opts in range(4):
+            for opts in (0, 3):
                 steps = run_behaviour(ctx, labels, models, seed=ctx.seed, who_seq=whos * len(labels), opts=opts,
                                       strict_shape=False)
                 ctx.count(len(steps))
@@ -401,6 +403,9 @@ def judge(ctx, traces, meta, label):
 
 # --------------------------------------------------------------------------- entry
 def run(ctx):
+    # load the code under test once, before any worker is forked: every worker then runs the same snapshot of it
+    import dulwich.bitmap, dulwich.commit_graph, dulwich.gc, dulwich.graph, dulwich.midx  # noqa: F401,E401
+    import dulwich.object_store, dulwich.pack, dulwich.refs, dulwich.repo                  # noqa: F401,E401
     for fn in os.listdir(ctx.replay_dir):          # replay files of earlier runs
         os.remove(os.path.join(ctx.replay_dir, fn))
     if not git_available():
@@ -411,13 +416,18 @@ def run(ctx):
                          coverage=not ctx.quick)
     futs = defect_runs(ctx, pool)
     t0 = os.times()
-    budget = int(os.environ.get("C14_BUDGET", ctx.pick(4000, 36000)))       # (C14_BUDGET: debugging aid)
+    budget = int(os.environ.get("C14_BUDGET", ctx.pick(3200, 36000)))       # (C14_BUDGET: debugging aid)
     records = replay_graph(ctx, ctx.pick("Accel_mc.cfg", "Accel_mc5.cfg"), budget, ctx.pick("depth 4", "depth 5"))
     # ref storage alone, deeper (no objects move, so it is cheap): every transition executed
     records += replay_graph(ctx, ctx.pick("Accel_refs.cfg", "Accel_refs3.cfg"), 10 ** 9,
                             ctx.pick("refs only, 2 commits, depth 7", "refs only, 3 commits, depth 6"), every_edge=True)
+    # one process packs everything and generates the bitmaps itself (only then are bitmaps consulted), deeper
+    records += replay_graph(ctx, "Accel_bmp.cfg", 10 ** 9, "pack + bitmaps by the long-lived reader, 3 commits, depth 5",
+                            every_edge=True, force={"BuildBmp": ("w", 0)})
+    # histories with several merges of three parents, commit-graph written by dulwich and by git
+    records += replay_graph(ctx, "Accel_octo.cfg", 10 ** 9, "three-parent merges, 5 commits, depth 6", every_edge=True)
     defect_replays(ctx, futs)
-    wtraces, wmeta = walks(ctx, ctx.pick(40, 600), ctx.pick(12, 16), ctx.pick(5, 6))
+    wtraces, wmeta = walks(ctx, ctx.pick(32, 600), ctx.pick(12, 16), ctx.pick(5, 6))
     t1 = os.times()
     ctx.cov["replay_cpu_s"] = round((t1.children_user + t1.children_system + t1.user + t1.system)
                                     - (t0.children_user + t0.children_system + t0.user + t0.system), 1)
@@ -463,8 +473,9 @@ def replay(ctx, path):
     src_ans = None
     for k, lab in enumerate(labels):
         last = k == n - 1
+        force = {k2: tuple(v) for k2, v in (obj.get("force") or {}).items()}
         r = RP.step(root, scratch, models[k], lab, models[k + 1], src_ans, seed=obj.get("seed", 0), who=whos[k],
-                    opts=(obj.get("opts_last") if last else None), light=False)
+                    opts=(obj.get("opts_last") if last else None), light=False, force=force)
         print(f"step {k + 1}: {lab} by {r['who']} (opts {r['opts']})")
         if r.get("real"):
             print(f"    directory: {json.dumps(r['real'], sort_keys=True)}")
